@@ -37,6 +37,8 @@ pub struct JCase {
   pub lock_remote: BTreeMap<String, String>,
   pub prefer_cached: bool,
   pub max_redirects: usize,
+  pub unstable_text: bool,
+  pub unstable_bytes: bool,
   pub notes: Vec<String>,
 }
 
@@ -54,11 +56,12 @@ pub struct JGenCfg {
   pub stale_info: usize,   // percent of embedded infos that describe another source
   pub dirty_cache: bool,   // the file cache may hold other bytes or faults
   pub manifest_faults: usize, // percent of manifest entries that are tampered / unsupported / missing (plus faults/2)
+  pub asset_imports: usize,   // percent of relative imports written as text / bytes imports (outside the model)
 }
 
 impl Default for JGenCfg {
   fn default() -> Self {
-    JGenCfg { faults: 12, locker: 40, prefer_cached: 30, stale_meta: 15, modinfo: 60, dynamic: 20, https_imports: 15, weird_exports: 10, partial_info: 12, stale_info: 15, dirty_cache: true, manifest_faults: 4 }
+    JGenCfg { faults: 12, locker: 40, prefer_cached: 30, stale_meta: 15, modinfo: 60, dynamic: 20, https_imports: 15, weird_exports: 10, partial_info: 12, stale_info: 15, dirty_cache: true, manifest_faults: 4, asset_imports: 0 }
   }
 }
 
@@ -127,7 +130,16 @@ fn gen_imports(rng: &mut Rng, cfg: &JGenCfg, own_paths: &[&str], own_path: &str,
     if !used.insert(text.clone()) {
       continue;
     }
-    let form = if rng.chance(cfg.dynamic) { Form::Dynamic } else if rng.chance(50) { Form::Static } else { Form::Named };
+    let relative = text.starts_with('.');
+    let form = if relative && rng.chance(cfg.asset_imports) {
+      if rng.chance(60) { Form::TextAttr } else { Form::BytesAttr }
+    } else if rng.chance(cfg.dynamic) {
+      Form::Dynamic
+    } else if rng.chance(50) {
+      Form::Static
+    } else {
+      Form::Named
+    };
     imps.push(Imp { form, text });
   }
   imps
@@ -893,6 +905,8 @@ pub fn real_jbuild_with(c: &JCase, loader: &dyn Loader, locker: &mut Option<LogL
   let options = BuildOptions {
     executor: &exec,
     prefer_cached_jsr_versions: c.prefer_cached,
+    unstable_text_imports: c.unstable_text,
+    unstable_bytes_imports: c.unstable_bytes,
     locker: locker.as_mut().map(|l| l as &mut dyn Locker),
     ..Default::default()
   };
